@@ -179,3 +179,39 @@ Definition c11_check (bases : list (list N)) (c : c11case) : bool :=
     end
   end.
 Definition c11_mismatches (bases : list (list N)) (cs : list c11case) : list N := bad_indexes (c11_check bases) cs.
+
+(* ------------------------------------------------------------------ (4) sharded search and a loaded-but-corrupt shard *)
+
+(** indexData.Search(Const true, Whole) restricted to what it reads of every document *)
+Fixpoint shard_docs (d : idata) (n : nat) (i : N) : outcome (list (list N * list N)) :=
+  match n with
+  | O => Ok []
+  | S k => do r <- doc_read d i; let '(name, content, _, _) := r in
+           do rest <- shard_docs d k (i + 1); Ok ((name, content) :: rest)
+  end.
+Definition shard_search (d : idata) : outcome (list (list N * list N)) := shard_docs d (length (i_masks d)) 0.
+
+(** shardedSearcher.streamSearch + searchOneShard: a panic inside one shard is contained and counted
+    (Stats.Crashes), but an ERROR returned by one shard aborts the whole search:
+        if r.err != nil { stop(); err = r.err; continue }                                   *)
+Fixpoint sharded_search (shards : list idata) : outcome (list (list N * list N) * N) :=
+  match shards with
+  | [] => Ok ([], 0)
+  | d :: rest =>
+    do acc <- sharded_search rest;
+    match shard_search d with
+    | Ok r => Ok (r ++ fst acc, snd acc)
+    | Err e => Err e
+    | Panic w => if w =? P_DIVERGE then Panic w else Ok (fst acc, snd acc + 1)
+    end
+  end.
+
+(** a healthy one-document shard written by the model, and the same file with the top bit of the fileContents
+    data offset (in the TOC) flipped *)
+Definition iso_doc : doc_in := mkDocIn (str "a.go") (str "package needle") 0 true [] [] [] 0.
+Definition iso_state : bstate := add_repos [([], [iso_doc])] 0 b_empty.
+Definition iso_opaque : opaque := mkOpaque (repeat 0 8) [0; 0] [1] None wit_meta wit_repo.
+Definition iso_healthy : list N := write_shard false iso_state iso_opaque.
+Definition iso_pos : N := nlen (fst (layout 0 (shard_sections false iso_state iso_opaque))) + 58.
+Definition witness_oob : list N := flip_bit iso_healthy iso_pos 7.
+Definition witnesses2 : list (list N) := witnesses ++ [witness_oob; iso_healthy].
